@@ -58,6 +58,8 @@ type Env struct {
 	Record bool
 	Blocks []RecBlock
 	cur    *RecBlock
+
+	nImports int
 }
 
 type RecBlock struct {
